@@ -352,6 +352,28 @@ theorem transparent_needs_payload_refuted :
     emptyStore, Store.set, hn]
   decide
 
+/-- **… and `hkey` is the ONLY hypothesis that fails in that witness world** (audit C14a F6): the history above
+is not transparent, and `toyWorld false false` satisfies the digest size, the codec round trip and `hcommit`
+(`Commit()` only on success); what fails is `hkey` — the commands `(false, false)` and `(true, false)` have the
+same sums and different outcomes.  So the refutation is tight: it is the missing option in the payload, nothing
+else, that breaks transparency. -/
+theorem transparent_needs_payload_refuted_tight :
+    ((history (toyWorld false false) emptyStore [toyRun false false, toyRun true false]).2
+        = [⟨[1], 0⟩, ⟨[1], 0⟩] ∧
+      ((toyWorld false false).exec (true, false) ()).observed = ⟨[2], 0⟩) ∧
+    (∀ x, ((toyWorld false false).H x).length = (toyWorld false false).d) ∧
+    (∀ w, (toyWorld false false).inflate ((toyWorld false false).deflate w) = some w) ∧
+    (∀ c i, ((toyWorld false false).exec c i).committed = true → ((toyWorld false false).exec c i).status = 0) ∧
+    ¬ (∀ c c' i i', (toyWorld false false).rsum i = (toyWorld false false).rsum i' →
+        (toyWorld false false).dsum c = (toyWorld false false).dsum c' →
+        (toyWorld false false).exec c i = (toyWorld false false).exec c' i') := by
+  refine ⟨transparent_needs_payload_refuted, C13.toyH_size, fun _ => rfl, ?_, ?_⟩
+  · intro c i h
+    rcases c with ⟨a, b⟩
+    cases b <;> simp_all [toyWorld, toyExec]
+  · intro h
+    exact absurd (h (false, false) (true, false) () () rfl rfl) (by decide)
+
 /-- … and with the complete payload the same history is transparent -/
 example : (history (toyWorld true false) emptyStore [toyRun false false, toyRun true false]).2
     = [⟨[1], 0⟩, ⟨[2], 0⟩] := by
@@ -372,6 +394,29 @@ theorem transparent_needs_commit_refuted :
   simp [history, step, toyWorld, toyRun, toyExec, World.rsum, World.dsum, Outcome.observed, openAt,
     emptyStore, Store.set, hn]
   decide
+
+/-- **… and `hcommit` is the ONLY hypothesis that fails in that witness world** (audit C14a F6): the history
+above is not transparent, and `toyWorld true true` satisfies the digest size, the codec round trip and `hkey` (the
+four commands have four different data sums); what fails is `hcommit` — the failing command is `committed` with
+status 1. -/
+theorem transparent_needs_commit_refuted_tight :
+    ((history (toyWorld true true) emptyStore [toyRun false true, toyRun false true]).2
+        = [⟨[], 1⟩, ⟨[], 0⟩] ∧
+      ((toyWorld true true).exec (false, true) ()).observed = ⟨[], 1⟩) ∧
+    (∀ x, ((toyWorld true true).H x).length = (toyWorld true true).d) ∧
+    (∀ w, (toyWorld true true).inflate ((toyWorld true true).deflate w) = some w) ∧
+    (∀ c c' i i', (toyWorld true true).rsum i = (toyWorld true true).rsum i' →
+        (toyWorld true true).dsum c = (toyWorld true true).dsum c' →
+        (toyWorld true true).exec c i = (toyWorld true true).exec c' i') ∧
+    ¬ (∀ c i, ((toyWorld true true).exec c i).committed = true → ((toyWorld true true).exec c i).status = 0) := by
+  refine ⟨transparent_needs_commit_refuted, C13.toyH_size, fun _ => rfl, ?_, ?_⟩
+  · intro c c' i i' _ h
+    have : c = c' := by
+      rcases c with ⟨a, b⟩; rcases c' with ⟨a', b'⟩
+      revert h; cases a <;> cases b <;> cases a' <;> cases b' <;> decide
+    subst this; rfl
+  · intro h
+    exact absurd (h (false, true) () rfl) (by decide)
 
 /-- … with `Commit` only on success the failed run leaves nothing and the second run fails too -/
 example : (history (toyWorld true false) emptyStore [toyRun false true, toyRun false true]).2
